@@ -63,7 +63,7 @@ def main(seed, ncases, driver, out, prop=None):
         if skip(c): continue
         rnd = case_rnd(seed, c); P = gen(rnd); d = len(P["levels"]); N = P["N"]; k = P["k"]; sizes = P["sizes"]; atol = P["atol"]
         E = np.array(P["levels"]); blocks = np.repeat(np.arange(N), sizes)
-        gaps_ok = all(abs(E[a] - E[b]) < 4 * atol or abs(E[a] - E[b]) > 0.25 for a in range(d) for b in range(a))
+        gaps_ok = all((abs(E[a] - E[b]) < 4 * atol and blocks[a] == blocks[b]) or abs(E[a] - E[b]) > 0.25 for a in range(d) for b in range(a))      # (levels of different blocks are always far apart)
         desc = {"case": c, "atol": atol, "sizes": sizes, "levels": [float(x) for x in E], "groups": [list(g) for g in P["groups"]], "fd": (list(P["fd"]) if P["fd"] is not None else None),
                 "carrier": P["carrier"], "parameters": k}
         if not gaps_ok: dist["skipped: a level too close to a group"] = dist.get("skipped: a level too close to a group", 0) + 1; continue
@@ -75,6 +75,15 @@ def main(seed, ncases, driver, out, prop=None):
         terms = {(0,) * k: np.diag(E).astype(complex if P["cplx"] else float)}
         for n in itertools.product(range(3), repeat=k):
             if sum(n) == 1 or (sum(n) == 2 and rnd.random() < 0.3): terms[n] = herm()
+        given = {n: m.copy() for n, m in terms.items()}
+        # `atol` is also the documented threshold below which a whole block of a term counts as exactly zero: the Hamiltonian the identities speak about is the
+        # one with such blocks removed (with atol = 0.1 a 1 x 1 block of a random perturbation is below it every twelfth time)
+        off_ = np.concatenate([[0], np.cumsum(sizes)])
+        for n, m in terms.items():
+            for i in range(N):
+                for j in range(N):
+                    blk_ = m[off_[i]:off_[i + 1], off_[j]:off_[j + 1]]
+                    if blk_.size and 0 < np.abs(blk_).max() <= atol: blk_[...] = 0; dist["a block of a term below atol (counts as zero)"] = dist.get("a block of a term below atol (counts as zero)", 0) + 1
         conv = sparse.csr_array if P["carrier"] == "sparse" else (lambda x: x)
         kw = {"atol": atol} if atol != 1e-12 or rnd.random() < 0.5 else {}
         if N > 1: kw["subspace_indices"] = blocks
@@ -92,7 +101,7 @@ def main(seed, ncases, driver, out, prop=None):
         maxo = 3 if k == 1 else 2
         orders = [n for n in itertools.product(range(maxo + 1), repeat=k) if sum(n) <= maxo]
         try:
-            Ht, U, Ui = block_diagonalize({n: conv(m) for n, m in terms.items()}, **kw)
+            Ht, U, Ui = block_diagonalize({n: conv(m) for n, m in given.items()}, **kw)
             def asm(S, n): return np.block([[dense(S[(i, j) + n], (sizes[i], sizes[j])) for j in range(N)] for i in range(N)])
             H_ = {n: asm(Ht, n) for n in orders}; U_ = {n: asm(U, n) for n in orders}; V_ = {n: asm(Ui, n) for n in orders}
         except Exception as e:
